@@ -8,6 +8,20 @@ CLAIMS = {
          "Trusts Go type checker, x/tools, and the fork order read from common.Config's field order; BLS rejection of foreign-version signatures is not decided.",
          "DESIGN.md §3 D1-D3, §4 C14"),
 }
+CLAIMS.update({
+ "C04": ("symbolic SSZ shape/size evaluator over method bodies and view descriptors (sibling-agreement of hand-repeated field lists, limits as polynomials over spec constants)",
+         "Structural: for all ~150 SSZ types, the hand-repeated field lists, collection bounds, element sizes and declared Fixed/ByteLength are mutually consistent and equal to the view-form schema; decided symbolically in the spec constants, hence for every preset. Necessary conditions of round-tripping and length agreement; not value-level equality.",
+         "Trusts ztyp's codec and the Go type checker; JSON/YAML clause not decided.",
+         "DESIGN.md §3 A1-A5,A10, §4 C04"),
+ "C05": ("symbolic SSZ shape comparison struct-form vs view descriptor + positional constructor tracing",
+         "Structural: struct-form HashTreeRoot, codec methods and tree-view descriptors describe the same schema (kinds, widths, limits, field order) for every type, and struct->view / upgrade constructors put each value at its own position. Necessary conditions of root agreement across forms.",
+         "Trusts ztyp merkleization and caching; leaf byte-array hashers are hand-written and only size-checked.",
+         "DESIGN.md §3 A1-A3,A7,A8, §4 C05"),
+ "C15": ("type-resolved index/descriptor agreement analysis of all view accessors (constant indices, wrapper shape, iota blocks, name-contradiction, Raw() witnesses)",
+         "Structural: every hand-numbered index in every view accessor addresses the field its wrapper and name claim, in all six fork states and all sub-views; exhaustive over 450 sites. Necessary condition of accessor exactness; copy independence relies on ztyp (trusted) and on the epc rules under C08.",
+         "Trusts ztyp view semantics and the X/XType/XView naming convention (checked by instance floors).",
+         "DESIGN.md §3 A6-A9, §4 C15"),
+})
 NA = {
 }
 ALL = ["C%02d" % i for i in range(1, 21)]
